@@ -7,6 +7,7 @@ import (
 	"os/exec"
 	"path/filepath"
 	"strings"
+	"sync"
 	"sync/atomic"
 	"syscall"
 	"time"
@@ -274,4 +275,59 @@ func readSpec(path string, v any) error {
 	}
 	defer f.Close()
 	return gob.NewDecoder(f).Decode(v)
+}
+
+var (
+	otherFSOnce sync.Once
+	otherFSPath string
+)
+
+// otherFSDir returns a directory on ANOTHER file system than the run's scratch directory ("" if there is none): the
+// place for TMPDIR when a command's temporary files and its output must not share a file system (rename and link
+// across file systems fail with EXDEV; a copy is not atomic and may truncate).
+func otherFSDir(r *vf.Run) string {
+	otherFSOnce.Do(func() {
+		var sst syscall.Stat_t
+		if syscall.Stat(r.Scratch, &sst) != nil {
+			return
+		}
+		for _, base := range otherFSBases() {
+			_ = os.MkdirAll(base, 0o755)
+			// named after the scratch directory, so that the supervisor can remove it with the run
+			d := filepath.Join(base, "otherfs-"+filepath.Base(r.Scratch))
+			if err := os.MkdirAll(d, 0o755); err != nil {
+				continue
+			}
+			var st syscall.Stat_t
+			if syscall.Stat(d, &st) == nil && st.Dev != sst.Dev {
+				otherFSPath = d
+				return
+			}
+			os.RemoveAll(d)
+		}
+	})
+	return otherFSPath
+}
+
+// pickTmp chooses the TMPDIR of a command from its output path: every third command gets a TMPDIR on another file
+// system than its output.
+func pickTmp(r *vf.Run, out string) string {
+	h := 0
+	for i := 0; i < len(out); i++ {
+		h = h*31 + int(out[i])
+	}
+	if h < 0 {
+		h = -h
+	}
+	if h%3 == 0 {
+		if d := otherFSDir(r); d != "" {
+			r.Count("commands_with_tmpdir_on_another_file_system", 1)
+			return d
+		}
+	}
+	return ""
+}
+
+func otherFSBases() []string {
+	return []string{filepath.Join(vf.Root(), ".scratch"), os.TempDir(), "/var/tmp", "/dev/shm"}
 }
